@@ -181,6 +181,12 @@ def run_seq(env, ops, trace=False):
                     out["status"] = "pruned"
                     break
                 target = N[-2]
+            elif op[0] == "n" and op[1].isdigit():          # "n3." = N[-3] (with-block programs only)
+                j = int(op[1])
+                if len(N) < j:
+                    out["status"] = "pruned"
+                    break
+                target = N[-j]
             verb = op.split(".")[1] if target else op
             if verb == "enter" and target[1].entered:
                 out["status"] = "pruned"
@@ -189,6 +195,12 @@ def run_seq(env, ops, trace=False):
                 out["status"] = "pruned"
                 break
 
+            tdesc = None
+            if target is not None:
+                fr_ = target[1]
+                tdesc = f"{fr_.kind} {'live' if fr_.live else 'ended'}"
+                if fr_.kind == "savepoint" and fr_.live:
+                    tdesc += f" inner_live={len(G.sps) - G.sps.index(fr_) - 1}"
             must_raise = False
             if verb == "begin":
                 must_raise = G.closed or G.root is not None or G.ctx_dead()
@@ -204,6 +216,9 @@ def run_seq(env, ops, trace=False):
                 # the operation must raise; the rest of the sequence is not judged.
                 must_raise = True
                 undetermined = True
+
+            if G.ctx_dead() and not G.closed and (verb in ("begin", "begin_nested", "ins") or undetermined):
+                out["ctx_dead_steps"] = out.get("ctx_dead_steps", 0) + 1       # the dead-context-manager guard is exercised
 
             # ---- the real call
             err = None
@@ -323,7 +338,7 @@ def run_seq(env, ops, trace=False):
                 tr.append(dict(op=op, raised=err and err[0], ghost=state()))
             if fail:
                 out["status"] = "fail"
-                out["failure"] = dict(clause=fail[0], detail=fail[1], step=i, op=op, pre=pre)
+                out["failure"] = dict(clause=fail[0], detail=fail[1], step=i, op=op, pre=pre, target=tdesc)
                 break
     finally:
         try:
@@ -364,16 +379,92 @@ def sequences(maxlen):
     yield from rec(())
 
 
-def worker(shard, nshards, maxlen):
+EXTRAS = ["begin", "begin_nested", "ins", "commit", "rollback", "close",
+          "t.commit", "t.rollback", "t.close", "n.commit", "n.rollback", "n.close", "m.commit", "m.rollback"]
+
+# with-block skeletons: ("root",) = begin(); ("sp", id) = begin_nested(); ("enter"|"exit", id); None = a slot where extra
+# operations may be inserted (i.e. every point INSIDE a with-block body, plus the point after the outermost block).
+# id "R" is the RootTransaction handle, "A" / "B" / "C" are NestedTransaction handles.
+SKELETONS = {
+    # with conn.begin(): ... with conn.begin_nested(): ... <inner exit> ... <outer exit> ...
+    "root>sp": (2, [("root",), ("enter", "R"), None, ("sp", "A"), ("enter", "A"), None, ("exit", "A"), None, ("exit", "R"), None]),
+    # autobegin; with conn.begin_nested(): ... with conn.begin_nested(): ...
+    "sp>sp": (2, [("sp", "A"), ("enter", "A"), None, ("sp", "B"), ("enter", "B"), None, ("exit", "B"), None, ("exit", "A"), None]),
+    # three levels
+    "root>sp>sp": (3, [("root",), ("enter", "R"), None, ("sp", "A"), ("enter", "A"), None, ("sp", "B"), ("enter", "B"), None,
+                       ("exit", "B"), None, ("exit", "A"), None, ("exit", "R"), None]),
+    # two inner blocks one after the other
+    "root>sp,sp": (3, [("root",), ("enter", "R"), None, ("sp", "A"), ("enter", "A"), None, ("exit", "A"), None,
+                       ("sp", "B"), ("enter", "B"), None, ("exit", "B"), None, ("exit", "R"), None]),
+}
+
+
+def with_programs(k2, k3, minlen):
+    """with-block programs: every skeleton above x every way its blocks exit (normally / by exception, independently) x
+    every way of inserting <= k extra operations (k2 for the two-block skeletons, k3 for the three-block ones) from
+    EXTRAS into the slots.  Handles are written in the t / n / m / n3.. language of run_seq (n = most recent
+    begin_nested() so far, m = the one before, ...), resolved by counting the begin_nested operations before each point;
+    programs of length <= minlen are skipped (they are members of the exhaustive scope)."""
+    for name, (nblocks, skel) in SKELETONS.items():
+        k = k2 if nblocks == 2 else k3
+        nslots = sum(1 for x in skel if x is None)
+        for exits in itertools.product(("exit_ok", "exit_raise"), repeat=nblocks):
+            for n_extra in range(k + 1):
+                for slots in itertools.combinations_with_replacement(range(nslots), n_extra):
+                    for extras in itertools.product(EXTRAS, repeat=n_extra):
+                        ops, count, ordinal, si, xi, bad = [], 0, {}, 0, 0, False
+                        fill = {}
+                        for sl, e in zip(slots, extras):
+                            fill.setdefault(sl, []).append(e)
+                        for tok in skel:
+                            if tok is None:
+                                for e in fill.get(si, ()):
+                                    ops.append(e)
+                                    if e == "begin_nested":
+                                        count += 1
+                                si += 1
+                                continue
+                            if tok[0] == "root":
+                                ops.append("begin")
+                            elif tok[0] == "sp":
+                                ops.append("begin_nested")
+                                count += 1
+                                ordinal[tok[1]] = count
+                            else:
+                                if tok[1] == "R":
+                                    h = "t"
+                                else:
+                                    j = count - ordinal[tok[1]] + 1
+                                    h = "n" if j == 1 else "m" if j == 2 else f"n{j}"
+                                    bad = bad or j > 9
+                                if tok[0] == "enter":
+                                    ops.append(h + ".enter")
+                                else:
+                                    ops.append(h + "." + exits[xi])
+                                    xi += 1
+                        if not bad and len(ops) > minlen:
+                            yield tuple(ops)
+
+
+def worker(shard, nshards, maxlen, k2=0, k3=0):
     warnings.simplefilter("ignore")
     env = Env()
-    out = dict(sequences=0, evaluated=0, pruned=0, steps=0, failures=[], outcomes={}, samples=[], truncated=0, undetermined=0)
+    out = dict(sequences=0, evaluated=0, pruned=0, steps=0, failures=[], outcomes={}, samples=[], truncated=0, undetermined=0,
+               with_programs=0, with_programs_ctx_dead=0)
     try:
-        for idx, ops in enumerate(sequences(maxlen)):
+        n_exh = 0
+        for idx, ops in enumerate(itertools.chain(sequences(maxlen), [None], with_programs(k2, k3, maxlen))):
+            if ops is None:
+                n_exh = idx
+                continue
             if idx % nshards != shard:
                 continue
             out["sequences"] += 1
             r = run_seq(env, ops)
+            if n_exh:
+                out["with_programs"] += 1
+                if r.get("ctx_dead_steps"):
+                    out["with_programs_ctx_dead"] += 1
             if r["status"] == "pruned":
                 out["pruned"] += 1
                 continue
@@ -403,10 +494,12 @@ def worker(shard, nshards, maxlen):
 def run(run, tier, seed, args):
     warnings.simplefilter("ignore")
     maxlen = 5 if tier == "quick" else 6
+    k2, k3 = (2, 1) if tier == "quick" else (3, 2)
     procs = default_procs(tier)
     t0 = time.time()
-    res = shard_map(worker, procs, procs, maxlen)
-    tot = dict(sequences=0, evaluated=0, pruned=0, steps=0, truncated=0, distinct_outcomes=0, with_error_step=0, undetermined=0)
+    res = shard_map(worker, procs, procs, maxlen, k2, k3)
+    tot = dict(sequences=0, evaluated=0, pruned=0, steps=0, truncated=0, distinct_outcomes=0, with_error_step=0, undetermined=0,
+               with_programs=0, with_programs_ctx_dead=0)
     failures, samples = [], []
     for r in res:
         if r is None or "crash" in r:
@@ -424,16 +517,23 @@ def run(run, tier, seed, args):
     samples = samples[:3] + [dict(ops=["begin_nested", "ins", "n.rollback", "commit"], trace=tr["trace"])]
     run.coverage.update(
         evaluations=tot["evaluated"], distinct_nontrivial=tot["with_error_step"],
-        rule="every sequence over the 20 operations is enumerated depth-first; a sequence in which an operation has no "
+        rule="(1) every sequence over the 20 operations is enumerated depth-first; (2) every with-block program (see scope) "
+             "is enumerated; both kinds are run by the same interpreter and judged by the same clauses; a sequence in which an operation has no "
              "target yet (t.* before a begin(), n.* before a begin_nested(), m.* before two, exit before enter, second enter) "
              "is pruned (statically, or at run time when it depends on an earlier operation having succeeded) because it "
              "equals a shorter enumerated sequence; each remaining sequence is distinct by construction. "
              "A sequence is non-trivial (distinct_nontrivial) when at least one of its steps raised, i.e. it exercises "
              "misuse / an ended transaction / a closed connection; distinct_outcomes (summed per shard) counts distinct "
-             "(operation, exception class) traces",
+             "(operation, exception class) traces; with_programs_guard_exercised counts the with-block programs in which "
+             "an operation was attempted while an entered context manager's transaction had already ended",
         samples=samples, exhaustive=True,
         scope=f"all operation sequences of length <= {maxlen} over {OPS} on one Connection (savepoint depth <= {maxlen}), "
-              f"file-backed SQLite in sqlite3 autocommit=False mode, one independent observer connection; every step judged",
+              f"PLUS all with-block programs longer than that: the block skeletons {sorted(SKELETONS)} (root = 'with conn.begin()', "
+              f"sp = 'with conn.begin_nested()', '>' = nested inside, ',' = one after the other; 'sp>sp' autobegins), every block "
+              f"independently exiting normally or by exception, with <= {k2} (two-block skeletons) / <= {k3} (three-block "
+              f"skeletons) extra operations from {EXTRAS} inserted at any points inside the block bodies / after the outermost "
+              f"block; file-backed SQLite in sqlite3 autocommit=False mode, one independent observer connection; every step judged",
+        with_programs=tot["with_programs"], with_programs_guard_exercised=tot["with_programs_ctx_dead"],
         sequences_enumerated=tot["sequences"], pruned_no_target=tot["pruned"], steps_judged=tot["steps"],
         sequences_cut_at_first_failure=tot["truncated"],
         sequences_cut_after_refused_savepoint_command_in_dead_ctx=tot["undetermined"], distinct_outcomes=tot["distinct_outcomes"],
@@ -444,7 +544,7 @@ def run(run, tier, seed, args):
         "no faults: DBAPI errors during commit / rollback are C27's subject",
         "two-phase transactions, execution options, asyncio, threads are outside",
     ]
-    if tot["evaluated"] < 2 or tot["with_error_step"] < 2:
+    if tot["evaluated"] < 2 or tot["with_error_step"] < 2 or tot["with_programs_ctx_dead"] < 2:
         run.crashes.append("vacuity guard: nothing evaluated")
     report(run, failures)
 
@@ -452,7 +552,7 @@ def run(run, tier, seed, args):
 def report(run, failures):
     seen = {}
     for d in sorted(failures, key=lambda d: (len(d["ops"]), d["ops"])):
-        desc = dict(ops=d["ops"], step=d["step"], op=d["op"], clause=d["clause"], pre=d["pre"])
+        desc = dict(ops=d["ops"], step=d["step"], op=d["op"], clause=d["clause"], pre=d["pre"], target=d.get("target"))
         dj = json.dumps(desc, sort_keys=True)
         k = run.match_known(function=FUNCTION, input=dj)
         if k is not None:
